@@ -543,7 +543,7 @@ pub(crate) fn add(ctx: &mut TulispContext) {
     // List functions
 
     fn impl_cons(ctx: &mut TulispContext, args: &TulispObject) -> Result<TulispObject, Error> {
-        let cdr = args.cdr_and_then(|args| {
+        args.cdr_and_then(|args| {
             if args.null() {
                 return Err(Error::new(
                     ErrorKind::TypeMismatch,
@@ -557,10 +557,11 @@ pub(crate) fn add(ctx: &mut TulispContext) {
                         "cons requires exactly 2 arguments".to_string(),
                     ));
                 }
-                args.car_and_then(|arg| ctx.eval(arg))
+                Ok(())
             })
         })?;
         let car = args.car_and_then(|arg| ctx.eval(arg))?;
+        let cdr = args.cadr_and_then(|arg| ctx.eval(arg))?;
         Ok(TulispObject::cons(car, cdr))
     }
     intern_set_func!(ctx, impl_cons, "cons");
